@@ -2106,6 +2106,10 @@ class Interp:
             if hasattr(_b, name):
                 return Ext("builtins." + name)
             return args[1] if len(args) > 1 else None
+        if d in ("bisect.bisect_right", "bisect.bisect_left", "bisect.bisect") and not kwargs and 2 <= len(args) <= 4 \
+                and isinstance(args[0], (list, tuple)) and all(isinstance(x, (int, str)) and not isinstance(x, bool) for x in list(args[0]) + list(args[1:])):
+            import bisect as _bisect
+            return getattr(_bisect, d.split(".")[1])(list(args[0]), *args[1:])
         if d == "struct.Struct":
             if not args or not isinstance(args[0], (str, bytes)):
                 raise Unsupported("struct.Struct with a format that is not a literal")
